@@ -30,26 +30,27 @@ type LoopSpec struct {
 }
 
 type Contract struct {
-	Key       string
-	Tags      []string
-	File      string
-	Line      int
-	Requires  []Clause
-	Ensures   []Clause
-	XEnsures  []Clause // must hold at every panic exit
-	PanicsIf  []Clause // panic exits allowed only under this condition
-	Modifies  []*Expr
-	ModSet    bool // a modifies clause was given ("modifies nothing" = empty set)
-	Loops     map[int]*LoopSpec
-	Arith     string // "wrapping" (default) or "checked"
-	Trusted   bool   // assumed, not verified (external code or explicitly trusted)
-	Inline    bool   // always inline at call sites instead of using the contract
-	NoSafety  bool
-	Pure      bool // no heap effect, result unconstrained unless ensures
-	Fresh     []string // result names that are freshly allocated objects
-	Assumes   []Clause // explicit assumptions (listed in evidence)
+	Key        string
+	Tags       []string
+	File       string
+	Line       int
+	Requires   []Clause
+	Ensures    []Clause
+	XEnsures   []Clause // must hold at every panic exit
+	PanicsIf   []Clause // panic exits allowed only under this condition
+	Modifies   []*Expr
+	ModSet     bool // a modifies clause was given ("modifies nothing" = empty set)
+	Loops      map[int]*LoopSpec
+	Arith      string // "wrapping" (default) or "checked"
+	Trusted    bool   // assumed, not verified (external code or explicitly trusted)
+	Inline     bool   // always inline at call sites instead of using the contract
+	NoSafety   bool
+	Pure       bool     // no heap effect, result unconstrained unless ensures
+	Fresh      []string // result names that are freshly allocated objects
+	Assumes    []Clause // explicit assumptions (listed in evidence)
 	RecvNotNil bool
-	GhostExit []GhostAssign // ghost assignments performed at every normal exit
+	GhostExit  []GhostAssign // ghost assignments performed at every normal exit
+	Opaque     map[string]bool // predicates kept as atoms inside this function\'s proof (opaque / reveal)
 }
 
 type GhostAssign struct {
@@ -59,23 +60,23 @@ type GhostAssign struct {
 }
 
 type GhostField struct {
-	Struct string // struct type name (in the declaring package)
-	Name   string
-	Type   string // spec type
+	Struct  string // struct type name (in the declaring package)
+	Name    string
+	Type    string // spec type
 	PkgPath string
 }
 
 type SpecFn struct {
-	Name     string
-	Params   []QVar
-	Ret      string
-	Body     *Expr // nil = uninterpreted
-	IsPred   bool
-	File     string
-	Line     int
-	Rec      bool
-	Unfolds  int
-	PkgPath  string
+	Name    string
+	Params  []QVar
+	Ret     string
+	Body    *Expr // nil = uninterpreted
+	IsPred  bool
+	File    string
+	Line    int
+	Rec     bool
+	Unfolds int
+	PkgPath string
 }
 
 type Lemma struct {
@@ -94,7 +95,7 @@ type ContractDB struct {
 	Lemmas  []*Lemma
 	PurePkg map[string]bool // packages whose functions are assumed effect-free with unconstrained results
 	Files   []string
-	Consts  map[string]string // named spec constants
+	Consts  map[string]string      // named spec constants
 	Ghosts  map[string]*GhostField // "pkgpath.Struct.field"
 }
 
@@ -107,7 +108,7 @@ const modulePath = "github.com/streamingfast/substreams"
 var tagRe = regexp.MustCompile(`\[(C[0-9]+(?:,\s*C[0-9]+)*)\]`)
 
 var clauseKeywords = map[string]bool{"requires": true, "ensures": true, "xensures": true, "panics_if": true, "modifies": true,
-	"loop": true, "arith": true, "trusted": true, "inline": true, "nosafety": true, "pure": true, "fresh": true, "assume": true, "ghost_exit": true}
+	"loop": true, "arith": true, "trusted": true, "inline": true, "nosafety": true, "pure": true, "fresh": true, "assume": true, "ghost_exit": true, "opaque": true}
 
 var topKeywords = map[string]bool{"ghostfield": true, "func": true, "spec": true, "pred": true, "lemma": true, "purepkg": true, "const": true, "uninterp": true}
 
@@ -357,6 +358,13 @@ func (c *Contract) addClause(p rawLine, path string) error {
 			ls.Decreases = &cl
 		default:
 			return fmt.Errorf("unknown loop clause %q", f[1])
+		}
+	case "opaque":
+		if c.Opaque == nil {
+			c.Opaque = map[string]bool{}
+		}
+		for _, n := range strings.FieldsFunc(rest, func(r rune) bool { return r == ',' || r == ' ' }) {
+			c.Opaque[n] = true
 		}
 	case "ghost_exit":
 		i := strings.Index(rest, ":=")
